@@ -140,9 +140,28 @@ class Exec:
                     'kind': what, 'step': step, 'op': op, 'cell': i,
                     'expected': V.show(exp[i]), 'observed': V.show(o) if o else None})
 
-    def run(self, hist, use_names=False, observe_ops=('calc', 'fcall')):
+    def probe(self, step, op, j):
+        """Observe every live object with override set j."""
+        for name, m in list(self.objs.items()):
+            kw = {}
+            inp = self.inputs_of(j)
+            if inp:
+                kw['inputs'] = inp
+            try:
+                sol = m.calculate(**kw)
+                self.compare(step, dict(op, probe=name, pj=j), sol, j, list(self.g.cells), 'probe')
+            except BaseException as ex:  # noqa
+                if isinstance(ex, (KeyboardInterrupt, SystemExit)):
+                    raise
+                self.problems.append({'kind': 'probe-raises', 'step': step,
+                                      'op': dict(op, probe=name, pj=j),
+                                      'exc': type(ex).__name__, 'msg': str(ex)[:200]})
+
+    def run(self, hist, use_names=False, observe_ops=('calc', 'fcall'), probe_j=None):
         g = self.g
         for step, op in enumerate(hist, 1):
+            if probe_j is not None and step > 1:
+                self.probe(step - 1, hist[step - 2], probe_j)
             m = self.objs.get(op.get('o', 'm'))
             if m is None:
                 continue
@@ -183,6 +202,8 @@ class Exec:
                     self.objs['copy'] = dill.loads(dill.dumps(m))
                 elif k == 'refinish':
                     pass
+                elif k == 'fcopy':
+                    self.fcopy(step, op, m)
             except BaseException as ex:  # noqa
                 if isinstance(ex, (KeyboardInterrupt, SystemExit)):
                     raise
@@ -194,6 +215,41 @@ class Exec:
                     'exc': type(ex).__name__ + ('/' + type(inner).__name__ if inner else ''),
                     'msg': str(ex)[:200]})
         return self.problems
+
+    def fcopy(self, step, op, m):
+        """A compiled function, its deep copy and its dill round trip agree with
+        Sem(W, ov_j) - also after the original has been called with other
+        arguments."""
+        import dill
+        g = self.g
+        j = op['j'] or 1
+        ovset = self.ovsets[j - 1]
+        if ovset['style'] != 'cells':
+            return
+        outs = out_cells(g)
+        ids = list(ovset['ov'])
+        if not outs or set(ids) & set(outs) or any(i not in g.cells for i in ids):
+            return
+        keys = [G.node_name(i) for i in ids]
+        func = m.compile(inputs=keys, outputs=[G.node_name(i) for i in outs])
+        f2 = copy.deepcopy(func)
+        f3 = dill.loads(dill.dumps(func))
+        other = [V.pyval(G.rnd_const(random.Random(step), 'n')) for _ in ids]
+        func(*other)                      # mutate the original's last solution
+        args = [V.pyval(ovset['ov'][i]) for i in ids]
+        exp = self.sem[j]
+        for label, fn in (('deepcopy', f2), ('dill', f3), ('original', func)):
+            res = fn(*args)
+            if len(outs) == 1:
+                res = [res]
+            for i, v in zip(outs, res):
+                v = v.value if hasattr(v, 'ranges') else v
+                o = V.alpha(R._first(v))
+                self.observations += 1
+                if i in exp and not V.matches(exp[i], o):
+                    self.problems.append({'kind': 'function-copy', 'step': step,
+                                          'op': dict(op, which=label), 'cell': i,
+                                          'expected': V.show(exp[i]), 'observed': V.show(o)})
 
     def fcall(self, step, op, m, check=True):
         """Compile a function for override set j's inputs and the output cells,
